@@ -11,6 +11,7 @@
    interpolations those of Gen/Interpolation.v. *)
 From Coq Require Import List ZArith Bool.
 From Inferno Require Import Base.Num Gen.Infra Gen.Trace Gen.Interpolation C01.Ring.
+From Inferno Require Gen.Math.
 Import ListNotations.
 
 (* ------------------------------------------------------------------ the generic machine *)
@@ -319,12 +320,9 @@ Notation R := (T M).
    self.decay = exp(-self.dt / self.time_constant) *)
 Definition decay_of (tau dt : R) : R := exp M (div M (opp M dt) tau).
 
-(* hand-transcribed: inferno/core/math.py:169-200 (exponential_smoothing); not generated - flagged *)
+(* GENERATED: Gen/Math.v exponential_smoothing is re-translated from inferno/core/math.py on every run *)
 Definition exponential_smoothing (obs : R) (level : option R) (alpha : R) : R :=
-  match level with
-  | None => obs
-  | Some level => add M (mul M alpha obs) (mul M (sub M (one M) alpha) level)
-  end.
+  Gen.Math.exponential_smoothing M obs level alpha.
 
 Definition expdecay_interp (tau : R) : R -> R -> R -> R -> R :=
   fun p n sa st => interp_expdecay M p n sa st tau.
